@@ -22,7 +22,7 @@ import subprocess
 import time
 
 import c03_families
-from lib import (BIN, REPO, SPECS, Check, ToolError, build_harness, clean_dir, extract_replay, log, read_ndjson,
+from lib import (BIN, EVIDENCE, REPO, SPECS, Check, ToolError, build_harness, clean_dir, extract_replay, log, read_ndjson,
                  run, seed, tlc, workdir, write_ndjson, JAVA_OPTS_TRACE)
 
 SPEC = os.path.join(SPECS, "LibfuncSound")
@@ -118,7 +118,7 @@ def layer2(chk, tier, only=None):
         st, wall, rd = apalache(info["dir"], info["module"], info["length"], "Sound", "sound", to)
         # anti-vacuity: the first `ret` must be reachable within the bound (cheap linear instances only)
         reach = None
-        if st == "ok" and tier == "thorough" and not job["nonlinear"] and info["rets"]:
+        if st == "ok" and n in reach_sample and info["rets"]:
             r0 = info["rets"][-1]
             st2, _, _ = apalache(info["dir"], info["module"], info["length"], f"NotAt{r0}", "reach", to)
             reach = (st2 == "violated")
@@ -132,17 +132,26 @@ def layer2(chk, tier, only=None):
         info = infos[st_name]
         text = open(os.path.join(info["dir"], info["module"] + ".tla")).read()
         lines = text.split("\n")
-        k = max(i for i, l in enumerate(lines) if l.strip().startswith("/\\ Rd("))
-        lines[k] = "  /\\ TRUE"
+        k = max(i for i, l in enumerate(lines) if re.match(r"^C\d+_\d+ == Rd\(", l))
+        lines[k] = lines[k].split(" == ")[0] + " == TRUE"
         bug_mod = info["module"] + "_bug"
         open(os.path.join(info["dir"], bug_mod + ".tla"), "w").write(
             "\n".join(lines).replace(f"MODULE {info['module']} ", f"MODULE {bug_mod} "))
+
+    # anti-vacuity sample: for these instances the last `ret` must be reachable within the bound
+    rs = random.Random(seed() + 17)
+    reach_sample = set(rs.sample(sorted(todo), min(len(todo), 12 if tier == "thorough" else 1)))
 
     # longest first
     todo.sort(key=lambda n: -(infos[n]["n_nodes"] * infos[n]["length"] * (5 if byname[n]["nonlinear"] else 1)))
     results = {}
     t0 = time.time()
+    # self-consistency of CairoAir's mod-P encodings (equivalence with the definition by remainder)
+    acdir = clean_dir(os.path.join(l2dir, "_aircheck"))
+    for m in ("CairoAir.tla", "CairoAirCheck.tla"):
+        shutil.copy(os.path.join(SPEC, m), os.path.join(acdir, m))
     with concurrent.futures.ThreadPoolExecutor(max_workers=APALACHE_PAR) as ex:
+        fut_air = ex.submit(apalache, acdir, "CairoAirCheck", 0, "EncodingsOK", "enc", lin_to)
         fut = None
         if st_name:
             fut = ex.submit(apalache, infos[st_name]["dir"], infos[st_name]["module"] + "_bug", infos[st_name]["length"],
@@ -151,6 +160,9 @@ def layer2(chk, tier, only=None):
             results[n] = (st, wall, rd, reach)
             log(f"[C03/L2] {n}: {st} in {wall:.0f}s (instrs={infos[n]['n_instr']} length={infos[n]['length']}"
                 f"{' nonlinear' if byname[n]['nonlinear'] else ''}{'' if reach is None else ' ret-reachable=' + str(reach)})")
+        if fut_air.result()[0] != "ok":
+            raise ToolError(f"CairoAirCheck: the mod-P encodings of CairoAir are not equivalent to their definition "
+                            f"({fut_air.result()[0]}, see {acdir}/enc.log)")
         if fut is not None:
             selftest = fut.result()[0]
             if selftest != "violated":
@@ -164,7 +176,7 @@ def layer2(chk, tier, only=None):
         if st == "ok":
             out["checked"].append(n)
             if reach is False:
-                out["unreachable_ret"].append(n)
+                raise ToolError(f"L2: the `ret` of {n} is not reachable in the model (vacuous instance)")
         elif st == "timeout":
             if nl:
                 out["symbolic_skipped"].append(n)
@@ -253,7 +265,8 @@ def layer1(chk, tier):
 
     progs = e2e_programs() + file_programs(tier)
     plan = {"programs": progs, "inputs_per_fn": 2 if tier == "quick" else 8, "max_occ": 6 if tier == "quick" else 30,
-            "max_steps": 300000, "max_fns": 6 if tier == "quick" else 12}
+            "max_steps": 300000, "max_fns": 6 if tier == "quick" else 12,
+            "mined_inputs_per_fn": 3 if tier == "quick" else 12}
     plan_path = os.path.join(d, "plan.json")
     json.dump(plan, open(plan_path, "w"))
     run([os.path.join(BIN, "hint_adversary"), "record", plan_path, d], timeout=3000)
@@ -292,11 +305,28 @@ def layer1(chk, tier):
             h[e["k"]] += 1
             gasdiff += 1 if e.get("gasdiff") else 0
     n_inject = sum(1 for e in ev if e["e"] == "inject")
+    # distinct non-trivial cases: (program, function, hint site, plan kind, cells) whose injection was executed
+    # (a plan that would not change the honest value is never executed) and refuted by the VM or absorbed
+    site = {}
+    for r in runs:
+        for o in r["occs"]:
+            site[(r["id"], o["i"])] = (r["prog"], r["fn"], o["pc"], o["hint"])
+    distinct_cases = set()
+    for e in ev:
+        if e["e"] == "inject":
+            distinct_cases.add(site.get((e["id"], e["occ"]), (e["id"],)) + (e["kind"], e["c"], e["c2"], e["j"]))
 
     # alarms: confirm each by re-executing it alone, then report
     alarms = read_ndjson(alarms_path)
     confirmed = []
-    for k, a in enumerate(alarms[:50]):
+    # one report per (program, hint kind): the other alarms are the same defect seen through other plans / inputs
+    seen_keys, distinct = set(), []
+    for a in alarms:
+        key = (a["prog"], a["occ"]["hint"])
+        if key not in seen_keys:
+            seen_keys.add(key)
+            distinct.append(a)
+    for k, a in enumerate(distinct[:12]):
         one = os.path.join(d, f"alarm_{k}.json")
         out = os.path.join(d, f"alarm_{k}_out.json")
         json.dump(a, open(one, "w"))
@@ -318,12 +348,17 @@ def layer1(chk, tier):
     tr = tlc(SPEC, "HintAdversaryTrace", "HintAdversaryTrace.cfg", "c03_trace", workers=1, timeout=3000,
              env={"TRACE": events}, java_opts=JAVA_OPTS_TRACE, heap="8g")
     chk.add_tlc(tr)
-    if tr.errors:
-        raise ToolError(f"L1: trace rejected: {tr.errors[:2]} (see {tr.out_path})")
-    if tr.violated and not alarms:
-        raise ToolError(f"L1: TLC reports {tr.violated} but the harness raised no alarm (see {tr.out_path})")
-    if alarms and not tr.violated:
-        raise ToolError("L1: the harness raised alarms but HintAdversaryTrace accepted the log")
+    if alarms:
+        # TLC stops at the first state violating Sound (so the acceptance post-condition is false, too)
+        if "Sound" not in tr.violated:
+            raise ToolError("L1: the harness raised alarms but HintAdversaryTrace did not report Sound violated "
+                            f"(see {tr.out_path})")
+        log(f"[C03/L1] HintAdversaryTrace: invariant Sound violated (as reported by the harness: {len(alarms)} alarms)")
+    else:
+        if tr.violated:
+            raise ToolError(f"L1: TLC reports {tr.violated} but the harness raised no alarm (see {tr.out_path})")
+        if tr.errors:
+            raise ToolError(f"L1: trace rejected: {tr.errors[:2]} (see {tr.out_path})")
 
     # anti-vacuity of the V binding: corrupt the result of one accepted `ok` outcome -> must be rejected
     if not alarms:
@@ -353,9 +388,18 @@ def layer1(chk, tier):
     for r in runs:
         for o in r["occs"]:
             hint_hist[o["hint"]] = hint_hist.get(o["hint"], 0) + 1
-    for r in runs[:400:150]:
+    with_occs = [r for r in runs if r["occs"]]
+    for r in with_occs[::max(1, len(with_occs) // 3)][:3]:
         chk.sample({"l1_run": r["id"][:80], "args": r["args"], "honest": r["honest"]["kind"] + ":" + r["honest"]["content"][:60],
                     "occs": [[o["i"], o["hint"], len(o["outs"])] for o in r["occs"][:4]]})
+    last_inj, n_s = None, 0
+    for e in ev:
+        if e["e"] == "inject":
+            last_inj = e
+        elif e["e"] == "outcome" and last_inj is not None and n_s < 2 and e["k"] == ("fail" if n_s == 0 else "ok"):
+            chk.sample({"l1_plan": {k: last_inj[k] for k in ("id", "occ", "c", "c2", "kind", "j")}, "hint": e["hint"],
+                        "outcome": e["k"]})
+            n_s += 1
     log(f"[C03/L1] programs={len(progs)} honest_runs={len(runs)} occurrences={sum(hint_hist.values())} plans={n_plans} "
         f"executed={n_inject} outcomes={outcomes} alarms={len(alarms)} confirmed={len(confirmed)}")
     return {
@@ -364,6 +408,7 @@ def layer1(chk, tier):
         "hint_occurrences_attacked": sum(hint_hist.values()), "occurrences_by_hint": hint_hist,
         "plans_enumerated_by_tlc": n_plans, "plans_executed": n_inject, "outcomes": outcomes,
         "outcomes_by_hint": by_hint, "gas_counter_differs_on_ok_runs": gasdiff,
+        "distinct_site_plans": len(distinct_cases),
         "alarms": len(alarms), "alarms_confirmed": len(confirmed), "skipped": skip_hist,
         "trace_events_validated": len(ev),
     }
@@ -396,10 +441,24 @@ def replay_one(chk, replay):
 
 
 def main(tier, replay=None):
+    try:
+        return main_(tier, replay)
+    except OSError as e:
+        # a missing binary / scratch file is an infrastructure problem, never a verdict
+        raise ToolError(f"I/O error: {e}")
+
+
+def main_(tier, replay=None):
     chk = Check("C03", tier)
     build_harness(["libfunc_air", "hint_adversary"])
     if replay:
-        return replay_one(chk, replay)
+        # a replay is not a run of the check: keep the evidence of the last real run
+        evp = os.path.join(EVIDENCE, "C03.json")
+        old = open(evp).read() if os.path.exists(evp) else None
+        rc = replay_one(chk, replay)
+        if old is not None:
+            open(evp, "w").write(old)
+        return rc
     l1 = layer1(chk, tier)
     l2, jobs = layer2(chk, tier)
     chk.cov["traces_validated_against_impl"] = l1["plans_executed"] + len(l2["confirmed"]) + len(l2["unconfirmed_model_cex"])
@@ -416,6 +475,12 @@ def main(tier, replay=None):
     ]
     return chk.finish({
         "exhaustive": False,
+        "evaluations": l1["plans_executed"] + len(l2["checked"]),
+        "distinct_nontrivial": l1["distinct_site_plans"] + len(l2["checked"]),
+        "rule": "L1: one evaluation = one fault plan (enumerated by TLC from the hint occurrence's output shape) executed on "
+                "the real VM; distinct = distinct (program, function, hint site pc, plan kind, cells, input index); plans that "
+                "would leave the honest value unchanged are not executed.  L2: one evaluation = one libfunc instantiation "
+                "whose real CASM was checked by Apalache against its post-condition for all inputs and all memories.",
         "l1": l1,
         "l2": {"apalache_obligations_checked": len(l2["checked"]), "checked": l2["checked"],
                "symbolic_skipped": l2["symbolic_skipped"], "unconfirmed_model_cex": l2["unconfirmed_model_cex"],
